@@ -23,6 +23,7 @@ DOC = {
  "C06.R4": "status word writers: only load / fetch_max / fetch_update with a monotone closure (Some(K2) only under f < K1 with K2 >= K1-1); no store/swap/fetch_min/CAS",
  "C06.R5": "registry / pid / pg cleanup is guarded by status >= Stopping and previous < Stopping (RMW's return) and dominated by the RMW (status published first); contents present",
  "C06.R6": "waiting has no effect: wait()'s call closure contains no actor-mutating function; *_and_wait issue their request once before wait; timeout variants only wrap the same future",
+ "C06.R8": "= C04.R7: mark_running after pre_start Ok / the link and before the loop task is created (a task cancelled before its first poll still reports to the supervisor)",
  "C06.R7": "no std::sync / DashMap guard is live across a yield; the lock-order graph of the crate is acyclic",
 }
 
@@ -230,6 +231,14 @@ def r5(run, db):
                   "%s reachable for requested status %s" % (nm, admitted_statuses(gp) if gp else "any (no guard)"), c.where())
         run.check(bool(gr) and admitted_statuses(gr) == STATUS_ORDER[:5], "elected-once:" + nm, "%s elected by the RMW's previous value being below Stopping: runs once, on the first transition" % nm,
                   "%s is not elected by the RMW's previous value being < Stopping (admits %s): the cleanup can run twice and hit a successor's registration, or not at all" % (nm, admitted_statuses(gr) if gr else "no guard"), c.where())
+    # the process-group cleanup applies to every cell, remote-actor proxies included (they join and monitor groups like any
+    # other cell); only the *name* release is local-only (C10.R6)
+    for c in cleanup:
+        if c.matches(r"pg::demonitor_all$|pg::leave_all$"):
+            loc = [x for x in f.calls() if x.matches(r"ActorId::is_local$")]
+            gated = [x for x in loc if any(e and f.edge_dominates(e, c.site) for e in (true_edge(f, x), false_edge(f, x)))]
+            run.check(not gated, "pg-cleanup-for-every-cell:" + c.name.split("::")[-1], "%s is not restricted to local cells" % c.name.split("::")[-1],
+                      "%s runs only for local ids: a remote-actor proxy that exits stays a member / monitor of its groups after its wait() returned" % c.name.split("::")[-1], c.where())
     # unregister takes this actor's own name / id
     for c in cleanup:
         if c.matches(r"registry::unregister$"):
@@ -396,6 +405,13 @@ def r7(run, db):
             run.check(okself and ("dashmap" not in u), "self-edge:%s" % u, "nested acquisition of two instances of %s is ordered by the tree lock" % u, "re-entrant acquisition of %s" % u, c.where())
 
 
+def r8(run, db):
+    """= C04.R7: `its supervisor has been sent the terminal event` also when the actor's task is cancelled before it ever ran:
+    the lifecycle guard is armed (mark_running) before the loop task exists"""
+    from . import c04
+    c04.r7(run, db)
+
+
 Q = ["dflt", "rc"]
 TH = ["dflt", "rc", "atr", "astd", "mon"]
-RULES = [{"id": "C06.R%d" % i, "fn": f, "quick": Q, "thorough": TH} for i, f in enumerate([r1, r2, r3, r4, r5, r6, r7], 1)]
+RULES = [{"id": "C06.R%d" % i, "fn": f, "quick": Q, "thorough": TH} for i, f in enumerate([r1, r2, r3, r4, r5, r6, r7, r8], 1)]
